@@ -42,6 +42,9 @@ ASSUMPTIONS = [
     "'up to the end of the line, excluding the newline' rule",
     "overlay steps override whole option groups (all six delimiters at once, or one prefix, or one whitespace flag)",
     "look-alikes of foreign configurations are used as text only when none of the own start delimiters / prefixes occurs in them",
+    "whitespace before a line-comment prefix belongs to the comment (the block-comment spelling compared with carries '-' / relies on "
+    "lstrip_blocks); lstrip_blocks before a tag preceded on its line by whitespace other than spaces/tabs is not judged (case or render "
+    "skipped, counted as discarded / e:ambiguous-renders-skipped)",
     "both sides of (a)-(d) run the implementation; common bugs are caught by the model comparison, whose assumptions are those of C12",
 ]
 
@@ -77,6 +80,10 @@ def opts_str(opts):
     return "syntax=%(syn)s ls=%(ls)r lc=%(lc)r trim_blocks=%(trim)s lstrip_blocks=%(lstrip)s newline_sequence=%(nls)r keep_trailing_newline=%(ktn)s" % opts
 
 
+class Ambiguous(core.Discard):
+    pass
+
+
 def uses_line_form(spec, opts):
     return "lsk" in spec and bool(opts["ls"] and opts["lc"] and opts["trim"] and opts["lstrip"])
 
@@ -91,10 +98,12 @@ def realise(spec, opts, force_form=None):
         ask = spec["sk"]
     csk = skel.instantiate(ask, syn)
     try:
-        exp = ws.render(csk, skel.printer(syn), opts["trim"], opts["lstrip"], opts["nls"], opts["ktn"])
+        a = ws.analyse(csk, skel.printer(syn), opts["trim"], opts["lstrip"], opts["ktn"])
     except ws.Decline:
         raise core.Discard()
-    return skel.source(csk, syn), exp, csk
+    if a.ambiguous:  # the documentation does not decide lstrip_blocks for this whitespace (vt.ref.ws)
+        raise Ambiguous()
+    return skel.source(csk, syn), a.rendered(opts["nls"]), csk
 
 
 def ntags(csk):
@@ -213,7 +222,10 @@ def _overlay(case):
         _cmp(env.from_string(src).render(skel.CONTEXT), exp, "%s: from_string output differs from the model" % when, src, opts)
         if all(opts[k] == base[k] for k in ("syn", "ls", "lc")) and (not uses_line_form(marked, base) or (opts["trim"] and opts["lstrip"])):
             # the loader's source is spelled for the base syntax; it means the same under these options
-            exp_t = ws.render(base_csk, skel.printer(skel.syntax(base["syn"], base["ls"], base["lc"])), opts["trim"], opts["lstrip"], opts["nls"], opts["ktn"])
+            a_t = ws.analyse(base_csk, skel.printer(skel.syntax(base["syn"], base["ls"], base["lc"])), opts["trim"], opts["lstrip"], opts["ktn"])
+            if a_t.ambiguous:
+                raise Ambiguous()
+            exp_t = a_t.rendered(opts["nls"])
             exp_t = exp_t.replace(MARK, mark_text(opts))
             _cmp(env.get_template("t").render(skel.CONTEXT), exp_t, "%s: get_template output differs from the model (template cache / extension binding)" % when,
                  base_src, opts)
@@ -274,6 +286,7 @@ def _isolation(case):
     modes = case["modes"]
     specs = [PROBE, PROBE_LINES] + case["specs"]
     envs = {}
+    skipped = []
 
     def mode_of(i):
         return modes[i % len(modes)] if modes else 0
@@ -292,7 +305,11 @@ def _isolation(case):
         if i not in envs:
             envs[i] = make(i)
         opts = cfgs[i]
-        src, exp, _ = realise(specs[k % len(specs)], opts)
+        try:
+            src, exp, _ = realise(specs[k % len(specs)], opts)
+        except Ambiguous:
+            skipped.append(i)
+            return
         env = envs[i]
         got = Template(src, **kwargs(opts)).render(skel.CONTEXT) if env == "template" else env.from_string(src).render(skel.CONTEXT)
         if got != exp:
@@ -309,6 +326,7 @@ def _isolation(case):
         use(i, 0, "in the reverse sweep")
     lexkeys = {tuple(sorted(c.items(), key=lambda kv: kv[0])) for c in cfgs}
     labels = ["e:isolation", "e:distinct>50" if len(lexkeys) > 50 else "e:distinct<=50"]
+    labels += ["e:ambiguous-renders-skipped"] if skipped else []
     labels += ["e:mode:%d" % m for m in set(modes)] + ["e:changed:" + n for n in {w[0] for w in case["walk"]}]
     return core.Outcome(len(lexkeys) > 50, labels)
 
@@ -367,7 +385,9 @@ def run_shard(spec, ctx):
     rec = core.Rec()
     sizes = {"a": ctx.pick(600, 9000), "b": ctx.pick(1200, 18000), "c": ctx.pick(800, 12000), "d": ctx.pick(400, 6000), "e": ctx.pick(22, 330)}
     for k in "abcde":
-        core.hyp_shard(s[k], check_case, ctx, sizes[k], rec=rec, tag=k)
+        skel.hyp_chunks(s[k], check_case, ctx, sizes[k], rec, k, chunk=3000)
+        if rec.violations:
+            break
     return rec
 
 
